@@ -301,7 +301,7 @@ pub fn c07(tier: &str) -> i32 {
     crate::absx::run_closure(
         &mut out,
         &mon_c,
-        &crate::absx::ClosureCfg { label: "C07: reload in every state (modify, toggles, create/place)", max_rest: 3, max_vol: 2, modify: true, toggles: true, create: true, redundant: false, ties: false, prices: if t { 3 } else { 2 }, reload_depth: 2 },
+        &crate::absx::ClosureCfg { label: "C07: reload in every state (modify, toggles, create/place)", max_rest: 3, max_vol: 2, modify: true, toggles: true, create: true, redundant: false, ties: false, prices: if t { 3 } else { 2 }, reload_depth: 2, suffix_k: 0 },
         false,
     );
     truncation_part(&mut out, t);
